@@ -1493,6 +1493,9 @@ class Engine:
                     r2 = self.call_value(c2, f2, val.callee, val.args, dest, ret_bb, None)
                     out.extend(r2 if r2 is not None else [("ctx", c2)])
                     continue
+                if isinstance(val, Script):
+                    out.extend(self.run_model_script(c2, val, dest, ret_bb))
+                    continue
                 if dest is not None:
                     self.write_place(c2, f2, dest, val)
                 if ret_bb is None:
